@@ -146,6 +146,7 @@ type thread struct {
 	enabled func() bool
 	parked  bool
 	done    bool
+	rank    int // delay mode: 0, or the order in which the thread was sent to the back
 }
 
 // Step is one scheduling decision.
@@ -188,6 +189,9 @@ type sched struct {
 	slots      map[uintptr]*slot
 	keep       []any
 	inEvent    bool
+	delay      bool
+	nextRank   int
+	demBuf     []*thread
 }
 
 var s *sched
@@ -198,6 +202,12 @@ type RunOpts struct {
 	EventStep int         // run EventFn immediately before scheduling step EventStep (if EventFn != nil)
 	EventFn   func()
 	Horizon   int
+	// Delay selects delay bounding: taking alternative k at a step also sends the k
+	// threads that were ahead in the canonical order to the back of that order for the
+	// rest of the execution (they run only when nothing else can), instead of letting
+	// them win again at the next step. One deviation then stalls a thread across many
+	// hand-offs of the others, which preemption bounding needs one deviation each for.
+	Delay bool
 }
 
 // Run executes body as thread 0 under the cooperative scheduler and returns when every
@@ -207,7 +217,7 @@ func Run(o RunOpts, body func()) RunResult {
 	if !controlled {
 		panic("verifshim.Run in free mode")
 	}
-	sc := &sched{devs: o.Devs, eventStep: o.EventStep, eventFn: o.EventFn, horizon: o.Horizon,
+	sc := &sched{devs: o.Devs, eventStep: o.EventStep, eventFn: o.EventFn, horizon: o.Horizon, delay: o.Delay,
 		finished: make(chan struct{}), closed: map[uintptr]any{}, slots: map[uintptr]*slot{}}
 	if sc.horizon == 0 {
 		sc.horizon = 50000
@@ -286,20 +296,39 @@ func (sc *sched) pick() *thread {
 	}
 	en := sc.enBuf[:0]
 	cur := sc.cur
-	if cur != nil && !cur.done && cur.parked && (cur.enabled == nil || cur.enabled()) {
+	if cur != nil && cur.rank == 0 && !cur.done && cur.parked && (cur.enabled == nil || cur.enabled()) {
 		en = append(en, cur)
 	}
+	dem := sc.demBuf[:0]
 	for _, t := range sc.threads {
-		if t != cur && !t.done && t.parked && (t.enabled == nil || t.enabled()) {
+		if (t != cur || t.rank != 0) && !t.done && t.parked && (t.enabled == nil || t.enabled()) {
+			if t.rank != 0 {
+				// delayed threads go last, in the order in which they were delayed
+				i := len(dem)
+				dem = append(dem, t)
+				for i > 0 && dem[i-1].rank > t.rank {
+					dem[i] = dem[i-1]
+					i--
+				}
+				dem[i] = t
+				continue
+			}
 			en = append(en, t)
 		}
 	}
-	sc.enBuf = en
+	en = append(en, dem...)
+	sc.enBuf, sc.demBuf = en, dem
 	if len(en) == 0 {
 		return nil
 	}
 	idx := sc.choose(len(en))
 	t := en[idx]
+	if sc.delay {
+		for _, d := range en[:idx] {
+			sc.nextRank++
+			d.rank = sc.nextRank
+		}
+	}
 	sc.trace = append(sc.trace, Step{Tid: int16(t.id), Kind: t.kind, NAlt: int16(len(en)), Chosen: int16(idx)})
 	return t
 }
